@@ -253,7 +253,12 @@ static enum r9_result parse_chunked(const uint8_t *b, size_t len, size_t *pos, s
 			if (size > (HUGE_LEN >> 4)) of = 1; else size = (size << 4) | (size_t)hexval(b[i]);
 			i++; nd++;
 		}
-		if (nd == 0) { m->why = "invalid chunk size"; return R9_REJECT; }
+		if (nd == 0) {
+			/* an empty line where a chunk header is expected: tolerated by some recipients in the
+			 * spirit of 2.2 (robustness against stray CRLF); no explicit requirement either way */
+			if (le == ls) m->lat |= R9_LAT_CHUNK_SYNTAX;
+			m->why = "invalid chunk size"; return R9_REJECT;
+		}
 		if (of) size = HUGE_LEN;
 		/* chunk-ext = *( BWS ";" BWS chunk-ext-name [ BWS "=" BWS chunk-ext-val ] ) */
 		while (i < le) {
